@@ -34,10 +34,16 @@ CHECK = {
         "quick": {"alphabet": "alphabet_u5", "script_len_generators": 6, "script_len_offload": 3,
                   "materials": 4, "scint_materials": 5, "directions": 21, "variants": 4,
                   "beta_lattice_per_material": 7,
+                  "dndx_charges": "-1,+1,-2,+2", "scint_speed_pairs": 6,
+                  "scint_offload_pre_speeds": "0.9 / 0.3 (post 0.99862874)",
+                  "volume_to_material": "v -> (v+2)%n, one non-optical, one duplicate; both MaterialView constructors",
                   "photons_per_script": "2 (Cerenkov) / 3 (scintillation)"},
         "thorough": {"alphabet": "alphabet_u7 (positions 0-4 of the generator scripts; alphabet_u5 at position 5)", "script_len_generators": 6, "script_len_offload": 3,
                      "materials": 5, "scint_materials": 6, "directions": 27, "variants": 4,
                      "beta_lattice_per_material": 8,
+                     "dndx_charges": "-1,+1,-2,+2", "scint_speed_pairs": 6,
+                     "scint_offload_pre_speeds": "0.9 / 0.3 (post 0.99862874)",
+                     "volume_to_material": "v -> (v+2)%n, one non-optical, one duplicate; both MaterialView constructors",
                      "photons_per_script": "2 (Cerenkov) / 3 (scintillation)"},
     },
     "parts": [
